@@ -91,6 +91,11 @@ pub struct St {
     outcomes: std::collections::BTreeSet<u64>,
 }
 
+thread_local! {
+    /// mode the store is switched to after the last add (None = no further switch)
+    static FINAL_MODE: std::cell::Cell<Option<u8>> = const { std::cell::Cell::new(None) };
+}
+
 /// one store = one add sequence [(mode, nogood)], checked against every partial interpretation
 pub fn case(v: usize, seq: &[(u8, Pa)], st: &mut St) -> Vec<(String, String)> {
     let mut out = vec![];
@@ -99,6 +104,9 @@ pub fn case(v: usize, seq: &[(u8, Pa)], st: &mut St) -> Vec<(String, String)> {
         for (m, p) in seq {
             s.set_dup_elem(mode(*m));
             s.add_ng(ng(p));
+        }
+        if let Some(m) = FINAL_MODE.with(|f| f.get()) {
+            s.set_dup_elem(mode(m));
         }
         s
     });
@@ -143,6 +151,18 @@ pub fn case(v: usize, seq: &[(u8, Pa)], st: &mut St) -> Vec<(String, String)> {
             Ok(Some(r)) => {
                 let rp = read(&r, v);
                 sig = sig.wrapping_mul(31).wrapping_add(hash64(&rp));
+                // the returned object is an interpretation like any other: its length is the number of decided
+                // positions, and handing it back to the store gives what a freshly made object with the same content gives
+                if rp.len() == v && r.len() != rp.iter().filter(|x| **x != 2).count() {
+                    out.push(("conclusions:result-len".into(), format!("the result {:?} of conclusions({:?}) reports len() = {}", rp, ip, r.len())));
+                }
+                if rp.len() == v {
+                    let again_obj = guard(|| store.conclusions(&r).map(|x| read(&x, v)));
+                    let again_fresh = guard(|| store.conclusions(&ng(&rp)).map(|x| read(&x, v)));
+                    if again_obj != again_fresh {
+                        out.push(("conclusions:requery-returned-object".into(), format!("conclusions() of the object returned for {:?} gives {:?}, a freshly made object with the same content {:?} gives {:?}", ip, again_obj, rp, again_fresh)));
+                    }
+                }
                 if matches_one {
                     out.push((
                         "conclusions:missed-conflict".into(),
@@ -317,6 +337,57 @@ pub fn run_c18(run: &Run) {
             run.add_outcomes(st.outcomes);
         }
         run.sample(seq_json(v, &decode(v, len, mixed, total / 3)));
+    }
+    // the same nogood twice in one history, a mode per add and a further switch of the mode after the last add (what
+    // is stored twice must not be lost when the store is told to eliminate duplicates from now on)
+    {
+        let v = 3usize;
+        let nn = 3u64.pow(v as u32) - 1;
+        // (g, g), (g, g, h), (g, h, g) x modes per add x final mode
+        let mut seqs: Vec<(Vec<(u8, Pa)>, u8)> = vec![];
+        for g in 0..nn {
+            for m in 0..9u8 {
+                for fm in 0..3u8 {
+                    seqs.push((vec![(m % 3, pa_from(v, g as usize)), (m / 3, pa_from(v, g as usize))], fm));
+                }
+            }
+            for h in (0..nn).step_by(if run.quick() { 3 } else { 1 }) {
+                for m in 0..27u8 {
+                    for fm in [1u8, 2] {
+                        let (a, b, c) = (m % 3, m / 3 % 3, m / 9);
+                        if m % 2 == 0 {
+                            seqs.push((vec![(a, pa_from(v, g as usize)), (b, pa_from(v, g as usize)), (c, pa_from(v, h as usize))], fm));
+                        } else {
+                            seqs.push((vec![(a, pa_from(v, g as usize)), (b, pa_from(v, h as usize)), (c, pa_from(v, g as usize))], fm));
+                        }
+                    }
+                }
+            }
+        }
+        let res = run.par_family(
+            "V=3 histories with the same nogood twice, a mode per add and a switch of the mode after the last add",
+            seqs.len() as u64,
+            St::default,
+            |st, k| {
+                let (seq, fm) = &seqs[k as usize];
+                FINAL_MODE.with(|f| f.set(Some(*fm)));
+                let found = case(v, seq, st);
+                FINAL_MODE.with(|f| f.set(None));
+                let mut seen = std::collections::BTreeSet::new();
+                for (kind, msg) in found {
+                    if seen.insert(kind.clone()) {
+                        let mut c = seq_json(v, seq);
+                        c["final_mode"] = json!(MODE_NAMES[*fm as usize]);
+                        run.violation(&kind, format!("{} after adds {:?} and a final switch to mode {}", msg, seq, MODE_NAMES[*fm as usize]), c);
+                    }
+                }
+            },
+            &|k| seq_json(v, &seqs[k as usize].0),
+        );
+        for st in res {
+            run.add_counts(st.stores, st.queries, st.queries, st.nontrivial);
+            run.add_outcomes(st.outcomes);
+        }
     }
     // the empty nogood (no literal: violated by every interpretation; the search learns it from a model of an ADF without
     // statements): all sequences of length <= 2 over ALL 3^V partial assignments in which it occurs
@@ -500,7 +571,11 @@ pub fn replay(c: &Value) -> Vec<(String, String)> {
     if let (Some(pos), Some(size)) = (c["positions"].as_array(), c["size"].as_u64()) {
         EMB.with(|e| *e.borrow_mut() = Some((pos.iter().map(|x| x.as_u64().unwrap_or(0) as usize).collect(), size as usize)));
     }
+    if let Some(fm) = c["final_mode"].as_str() {
+        FINAL_MODE.with(|f| f.set(MODE_NAMES.iter().position(|n| *n == fm).map(|x| x as u8)));
+    }
     let r = case(v, &seq, &mut st);
     EMB.with(|e| *e.borrow_mut() = None);
+    FINAL_MODE.with(|f| f.set(None));
     r
 }
